@@ -71,6 +71,15 @@ def run_case(case):
     except Exception as e:  # noqa: BLE001  (C01 reports writer failures)
         return {"ev": 1, "h": h, "nt": True, "out": "impl-write-raises:" + type(e).__name__}
     try:
+        from flow.record import ignore_fields_for_comparison
+
+        with ignore_fields_for_comparison(["_generated", "x", "a", "n", "_source"]):
+            data_ign = impl_write(records)
+        if data_ign != data:
+            viol.append(("C02:impl:bytes-depend-on-comparison-config", case, {"plain": data.hex()[:300], "with_ignore_set": data_ign.hex()[:300]}))
+    except Exception as e:  # noqa: BLE001
+        viol.append(("C02:impl:write-under-ignore-config-raises-%s" % type(e).__name__, case, {"error": repr(e)[:200]}))
+    try:
         got, dec = refcodec.decode_stream(data)
         d = recs.list_diff(expected, got)
         if d:
